@@ -122,7 +122,7 @@ def _sibling_skeleton(m, name):
     return " ".join(toks)
 
 
-def sibling(facts: CppFacts):
+def sibling(facts: CppFacts, methods=None, only_kinds=None):
     res = RuleResult("R-SIBLING")
     for name in SIBLING_METHODS:
         skels = {}
@@ -170,6 +170,10 @@ def sibling(facts: CppFacts):
                 res.add(f"{v}|TryToWrite|guards", f"{v}::TryToWrite must test CouldWriteValue and IsComplete before its "
                         "single storage write", m.file, m.line, f"{v}::TryToWrite")
     res.analysed = [PRELUDE_H, "runtime/cpp/emboss_enum_view.h"]
+    if methods is not None:
+        res.findings = [x for x in res.findings if x.key.split("|")[2] in methods]
+    if only_kinds is not None:
+        res.findings = [x for x in res.findings if x.key.split("|")[-1] in only_kinds]
     return res
 
 
